@@ -294,7 +294,11 @@ impl<'tcx> Cx<'tcx> {
                 self.operand(i, body, a),
                 esc(&format!("{}", self.mono(i, *n)))
             ),
-            Rvalue::Discriminant(p) => format!("{{\"r\":\"discr\",\"pl\":{}}}", self.place(i, body, p)),
+            Rvalue::Discriminant(p) => format!(
+                "{{\"r\":\"discr\",\"pl\":{},\"ty\":{}}}",
+                self.place(i, body, p),
+                esc(&self.mono(i, p.ty(body, self.tcx).ty).to_string())
+            ),
             Rvalue::Aggregate(k, ops) => {
                 let mut s = String::from("{\"r\":\"agg\",");
                 match &**k {
@@ -433,7 +437,12 @@ impl<'tcx> Cx<'tcx> {
                     let _ = write!(s, "{{\"t\":\"goto\",\"to\":{}}}", target.as_usize());
                 }
                 TerminatorKind::SwitchInt { discr, targets } => {
-                    let _ = write!(s, "{{\"t\":\"switch\",\"d\":{},\"arms\":[", self.operand(i, body, discr));
+                    let _ = write!(
+                        s,
+                        "{{\"t\":\"switch\",\"d\":{},\"dty\":{},\"arms\":[",
+                        self.operand(i, body, discr),
+                        esc(&self.mono(i, discr.ty(body, self.tcx)).to_string())
+                    );
                     let mut f = true;
                     for (v, tb) in targets.iter() {
                         if !f {
